@@ -449,6 +449,7 @@ func compileStruct(typ *runtime.Type, structName, fieldName string, structTypeTo
 			allFields = append(allFields, fieldSet)
 		}
 	}
+	lowerFieldMap := map[string]*structFieldSet{}
 	for _, set := range filterDuplicatedFields(allFields) {
 		fieldMap[set.key] = set
 		lower := strings.ToLower(set.key)
@@ -456,7 +457,12 @@ func compileStruct(typ *runtime.Type, structName, fieldName string, structTypeTo
 			// first win
 			fieldMap[lower] = set
 		}
+		if _, exists := lowerFieldMap[lower]; !exists {
+			// first win
+			lowerFieldMap[lower] = set
+		}
 	}
+	structDec.lowerFieldMap = lowerFieldMap
 	delete(structTypeToDecoder, typeptr)
 	structDec.tryOptimize()
 	return structDec, nil
